@@ -32,6 +32,8 @@ type Fault struct {
 	Op    int    `json:"op"`
 	K     int    `json:"k"`
 	Errno string `json:"errno,omitempty"`
+	Path  string `json:"path,omitempty"`
+	Nth   int    `json:"nth,omitempty"`
 }
 
 // genRun is one simulated execution of goderive.
@@ -232,10 +234,14 @@ func fileHash(p string) string {
 // typecheck loads the given package patterns (with tests) from the world
 // and returns the first few errors; also checks derived.gen.go is gofmt-clean.
 func typecheck(worldDir string, patterns ...string) []string {
+	return typecheckEnv(worldDir, goEnv(), patterns...)
+}
+
+func typecheckEnv(worldDir string, env []string, patterns ...string) []string {
 	cfg := &packages.Config{
 		Mode:  packages.NeedName | packages.NeedFiles | packages.NeedSyntax | packages.NeedTypes | packages.NeedTypesInfo | packages.NeedImports | packages.NeedDeps,
 		Dir:   worldDir,
-		Env:   goEnv(),
+		Env:   env,
 		Tests: true,
 	}
 	pkgs, err := packages.Load(cfg, patterns...)
@@ -297,3 +303,18 @@ func removeDerived(worldDir string) {
 		os.Remove(filepath.Join(worldDir, rel))
 	}
 }
+
+// gopathLayout turns a module-mode world into a GOPATH-mode one: the same
+// packages under <root>/src/example.com/w, no go.mod.
+func gopathLayout(files map[string]string) map[string]string {
+	out := map[string]string{}
+	for _, k := range sortedKeysStr(files) {
+		if k == "go.mod" {
+			continue
+		}
+		out["src/example.com/w/"+k] = files[k]
+	}
+	return out
+}
+
+func gopathEnv(root string) []string { return []string{"GO111MODULE=off", "GOPATH=" + root} }
